@@ -81,3 +81,20 @@ prop("C06", "c06",
            "instance of the same code after every step; bounded exploration.",
      note="Trusted: the fresh load itself is judged by C02/C03; probe set is finite (derived from the pool).",
      technique="stateful property-based testing: history vs fresh-load differential after every step")
+
+prop("C08", "c08",
+     "(a) Metamorphic: a base request path over unreserved characters and every generated re-encoding of it (any subset "
+     "of octets as %XX, either hex case) are sent through the assembled decision and proxy services against generated rule "
+     "sets mixing literal and wildcard expressions for the same paths (with/without path_params, settings unset/off/on/"
+     "no_decode, with/without default rule); status, matched rule id, echoed captures and upstream hits must be identical. "
+     "(b) Encoded slash: %2F or %2f inserted at a generated position; with off/unset and for the default rule the answer "
+     "must be 400 (404 only when no rule is applicable at all) and the upstream hit counter stays 0; with no_decode the "
+     "captured value and the upstream request line keep the encoded slash, with on both contain '/'. Every case is "
+     "non-trivial (a re-encoding that changes the path / an encoded slash); distinct by (rules, entry, base, variant).",
+     [dict(run="^TestReencodingIsInvisible$", quick=1200, thorough=10000, shards_thorough=8),
+      dict(run="^TestEncodedSlashHandling$", quick=1200, thorough=10000, shards_thorough=8)],
+     ["rule literals consist of unreserved characters only", "Go's net/http accepts the generated request lines"],
+     level="Randomised generated search with a metamorphic oracle (RFC 3986 6.2.2.2 equivalence) and a reference lookup for "
+           "the encoded-slash settings on the assembled decision and proxy services; bounded exploration.",
+     note="Trusted: net/url escaping rules, the echo channel (header finalizer, echo upstream).",
+     technique="property-based testing: metamorphic re-encoding relation + reference model for encoded-slash settings")
